@@ -179,7 +179,7 @@ inductive Expr
   | field (e : Expr) (i : Nat)
   | list (es : Exprs)
   | fstr (ps : Parts)
-  | concat (l r : Expr)                  -- `l + r` on strings (`String.append`)
+  | concat (l r : Expr)                  -- `l + r` on strings (`String.append`) or on lists (`List.concat`)
 inductive Exprs
   | nil
   | cons (e : Expr) (es : Exprs)
@@ -566,9 +566,12 @@ def evalExpr (fns : List FnDef) : Nat → Env → Expr → R (Env × Val)
     | .concat l r => do
       let (env, a) ← evalExpr fns n env l
       let (env, b) ← evalExpr fns n env r
+      -- an operator that desugars to a runtime call: `String.append` on two strings,
+      -- `List.concat` on two lists (a fresh list; neither call is a logged host call)
       match a, b with
       | .str x, .str y => pure (env, .str (x ++ y))
-      | _, _ => .stuck "+ on non-strings"
+      | .list x, .list y => pure (env, .list (x ++ y))
+      | _, _ => .stuck "+ on non-strings / non-lists"
 
 /-- left to right -/
 def evalArgs (fns : List FnDef) : Nat → Env → Exprs → R (Env × List Val)
